@@ -37,6 +37,7 @@ Nothing of the analysed repository is imported or executed.
 
 import ast
 import copy
+from collections import ChainMap
 
 from ..model import AnalysisError, walk_no_nested, stmt_text
 from ..pat import chain, call_name, dump
@@ -2187,14 +2188,232 @@ def _local_names(fnode):
 
 # ---------------------------------------------------------------------------
 # numbers a tuning class evaluates to
+#
+# ClassEval answers "what does `instance_of(cls).NAME` evaluate to" by *evaluating* the definition the way Python
+# would for an instance of exactly that class: the attribute is looked up along the class hierarchy, descriptors are
+# honoured (property / cached_property in decorator or call form, staticmethod, classmethod, plain functions become
+# bound methods), and whatever the definition calls is evaluated too -- methods of the hierarchy (dispatched on the
+# class under evaluation, `super()`, `Base.m(self, ..)`, `type(self).m(..)`), module-level helper functions (also
+# imported from another module of the package), lambdas / nested defs / functools.partial / operator.* as values,
+# and the arithmetic builtins and math.* functions that have an exact result on rationals.  Parameters are bound as
+# Python binds them (positional, keyword, defaults, *args), bodies are run statement by statement on concrete values
+# (assignments, augmented assignments, if / for / while on decidable tests, return), so a formula that is written
+# inline, moved to a helper with arguments, tabulated in a dict or spelt as a sum over range(MAX_RETRANSMIT) gives
+# the same number.  Everything is computed in exact rational arithmetic (float literals at their binary value).
+#
+# Why accepting these forms is safe: the evaluator never guesses.  A construct it has no exact meaning for (unknown
+# callee, unknown decorator, irrational result, statement with an effect on something it tracks, undecidable test,
+# generator, exhausted budget) raises Unsupported and the clause refuses (exit 2).  A number it does return is the
+# number the running program computes for that class, hence comparing two classes' numbers decides the obligation
+# of C04.j whatever the spelling.  Expression statements (docstrings, warnings.warn(..), logging) are skipped: they
+# cannot change the value returned unless they re-define an attribute the evaluation reads, and every store to an
+# attribute named in `deps` anywhere in the package is judged by C04.j itself.
+
+
+class _Missing(Unsupported):
+    """an attribute that is not defined along the (package part of the) class hierarchy"""
+
+
+class _Opaque:
+    """a value the evaluator could not compute; harmless until it is used"""
+
+    __slots__ = ("reason",)
+
+    def __init__(self, reason):
+        self.reason = reason
+
+
+class _Inst:
+    __slots__ = ("qn",)
+
+    def __init__(self, qn):
+        self.qn = qn
+
+
+class _ClsRef:
+    __slots__ = ("qn",)
+
+    def __init__(self, qn):
+        self.qn = qn
+
+    def __eq__(self, o):
+        return isinstance(o, _ClsRef) and o.qn == self.qn
+
+    def __hash__(self):
+        return hash(("cls", self.qn))
+
+
+class _ModRef:
+    __slots__ = ("module",)
+
+    def __init__(self, module):
+        self.module = module
+
+
+class _Ext:
+    """a builtin or something of the standard library, by dotted name (`max`, `math.ldexp`, `functools.partial`)"""
+
+    __slots__ = ("name",)
+
+    def __init__(self, name):
+        self.name = name
+
+
+class _Callable:
+    """fn(args: list, kwargs: dict) -> value.  is_function: a Python function object (becomes a bound method when
+    found in a class through an instance), as opposed to partial objects, bound methods, builtins."""
+
+    __slots__ = ("fn", "is_function", "descr")
+
+    def __init__(self, fn, is_function=False, descr="callable"):
+        self.fn = fn
+        self.is_function = is_function
+        self.descr = descr
+
+
+class _Prop:
+    __slots__ = ("fget",)
+
+    def __init__(self, fget):
+        self.fget = fget
+
+
+class _Static:
+    __slots__ = ("f",)
+
+    def __init__(self, f):
+        self.f = f
+
+
+class _ClassM:
+    __slots__ = ("f",)
+
+    def __init__(self, f):
+        self.f = f
+
+
+class _Super:
+    __slots__ = ("obj", "after")
+
+    def __init__(self, obj, after):
+        self.obj = obj
+        self.after = after
+
+
+class _Frame:
+    """env: ChainMap of local names; module: where global names are looked up; defcls: ClassInfo of the class whose
+    body (kind "classbody") or method (kind "func") is being evaluated, for super(); first: value of the first
+    parameter of the enclosing method, for the zero-argument super()."""
+
+    __slots__ = ("env", "module", "defcls", "kind", "first")
+
+    def __init__(self, env, module, defcls, kind, first=None):
+        self.env = env
+        self.module = module
+        self.defcls = defcls
+        self.kind = kind
+        self.first = first
+
+    def child(self):
+        return _Frame(self.env.new_child({}), self.module, self.defcls, self.kind, self.first)
+
+
+class _Ret(Exception):
+    def __init__(self, value):
+        Exception.__init__(self)
+        self.value = value
+
+
+class _Brk(Exception):
+    pass
+
+
+class _Cont(Exception):
+    pass
+
+
+_BUILTINS = {
+    "float", "int", "bool", "abs", "round", "pow", "sum", "divmod", "len", "range", "tuple", "list", "sorted", "reversed",
+    "enumerate", "zip", "map", "max", "min", "getattr", "hasattr", "type", "super", "property", "staticmethod",
+    "classmethod", "dict",
+}  # fmt: skip
+_OPERATOR = {
+    "add": ast.Add, "sub": ast.Sub, "mul": ast.Mult, "truediv": ast.Div, "floordiv": ast.FloorDiv, "mod": ast.Mod,
+    "pow": ast.Pow, "lshift": ast.LShift, "rshift": ast.RShift, "and_": ast.BitAnd, "or_": ast.BitOr, "xor": ast.BitXor,
+}  # fmt: skip
+
+
+def _class_members(ci):
+    """Ordered bindings of the class body: [(line after which the binding is in force, name, kind, payload)] with kind
+    "attr" (payload: value expression), "def" (payload: FunctionDef) or "unknown" (bound under a class-level
+    if / try / with / for, by `del`, by a nested class or by unpacking a non-literal).  A def decorated with
+    `@NAME.setter` / `@NAME.deleter` re-binds NAME to a property with the same getter: it is no new binding."""
+    out = []
+
+    def bind(t, v, line):
+        if isinstance(t, ast.Name):
+            out.append((line, t.id, "attr" if v is not None else "unknown", v))
+        elif isinstance(t, (ast.Tuple, ast.List)):
+            if v is not None and isinstance(v, (ast.Tuple, ast.List)) and len(v.elts) == len(t.elts) and not any(isinstance(x, ast.Starred) for x in list(v.elts) + list(t.elts)):
+                for x, y in zip(t.elts, v.elts):
+                    bind(x, y, line)
+            else:
+                for x in ast.walk(t):
+                    if isinstance(x, ast.Name):
+                        out.append((line, x.id, "unknown", None))
+        # attribute / subscript targets in a class body do not bind a class attribute
+
+    for st in ci.node.body:
+        line = getattr(st, "end_lineno", None) or getattr(st, "lineno", 0)
+        if isinstance(st, ast.Assign):
+            for t in st.targets:
+                bind(t, st.value, line)
+        elif isinstance(st, ast.AnnAssign):
+            if st.value is not None:
+                bind(st.target, st.value, line)
+        elif isinstance(st, (ast.FunctionDef, ast.AsyncFunctionDef)):
+            keeps_getter = False
+            for d in st.decorator_list:
+                c = chain(d)
+                if c is not None and c.split(".")[0] == st.name and c.split(".")[-1] in ("setter", "deleter") and len(c.split(".")) == 2:
+                    keeps_getter = True
+            if not keeps_getter:
+                out.append((line, st.name, "def" if isinstance(st, ast.FunctionDef) else "unknown", st))
+        elif isinstance(st, ast.ClassDef):
+            out.append((line, st.name, "unknown", None))
+        elif isinstance(st, (ast.Expr, ast.Pass, ast.Import, ast.ImportFrom)):
+            continue
+        else:
+            for x in ast.walk(st):
+                if isinstance(x, ast.Name) and isinstance(x.ctx, (ast.Store, ast.Del)):
+                    out.append((line, x.id, "unknown", None))
+                elif isinstance(x, (ast.FunctionDef, ast.AsyncFunctionDef, ast.ClassDef)):
+                    out.append((line, x.name, "unknown", None))
+    return out
+
+
+def _class_attrs(ci):
+    """{name: value expr} of the class-level bindings read from the class body itself (the program index leaves
+    ClassInfo.attrs empty for classes defined inside functions); a name bound under a class-level if / try / with / for,
+    by `del`, or by unpacking a non-literal is mapped to None."""
+    out = {}
+    for _line, name, kind, payload in _class_members(ci):
+        if kind == "attr":
+            out[name] = payload
+        elif kind == "unknown":
+            out[name] = None
+    return out
 
 
 class ClassEval:
-    """Value of `instance_of(cls).NAME` for class attributes and single-expression properties of package classes,
-    looked up along the MRO: exact rational arithmetic (float literals are taken at their binary value, so two
-    classes doing the same arithmetic give the same number).  `deps` collects every name that was read."""
+    """Value of `instance_of(cls).NAME`, looked up along the class hierarchy and evaluated (see the comment above):
+    exact rational arithmetic (float literals are taken at their binary value, so two classes doing the same
+    arithmetic give the same number).  `deps` collects every attribute name that was read from a class or an
+    instance, with the class that defines it."""
 
-    _PROP = {"property", "functools.cached_property", "cached_property"}
+    MAX_STEPS = 400000
+    MAX_DEPTH = 60
+    MAX_ITEMS = 20000
 
     def __init__(self, prog, cls_qn):
         from fractions import Fraction
@@ -2205,173 +2424,1045 @@ class ClassEval:
         self.deps = {}  # name -> class that defines it
         self.scope = ModuleScope(prog)
         self._busy = set()
+        self._steps = 0
+        self._depth = 0
+        self._pkg_tops = {m.split(".")[0] for m in prog.modules}
+        self._members = {}
 
-    def lookup(self, name):
-        for q in self.prog.mro(self.cls_qn):
+    # -- public -------------------------------------------------------------------------------------------------
+
+    def get(self, name):
+        return self.inst_get(self.cls_qn, name)
+
+    def number(self, name):
+        v = self.get(name)
+        if isinstance(v, bool) or not isinstance(v, self.F):
+            raise Unsupported("%s evaluates to %s, not to a number" % (name, self.show(v)))
+        return v
+
+    # -- attribute lookup ---------------------------------------------------------------------------------------
+
+    def members(self, ci):
+        if ci.qn not in self._members:
+            self._members[ci.qn] = _class_members(ci)
+        return self._members[ci.qn]
+
+    def lookup(self, name, qn=None, after=None):
+        """(ClassInfo, binding) of the class that provides `name` for an object of class qn, or (None, None)"""
+        qn = qn or self.cls_qn
+        mro = self.prog.mro(qn)
+        if after is not None:
+            if after not in mro:
+                raise Unsupported("super() of %s used on an object of %s" % (after.split(".")[-1], qn.split(".")[-1]))
+            mro = mro[mro.index(after) + 1:]
+        for q in mro:
             ci = self.prog.classes.get(q)
             if ci is None:
                 continue
-            cands = []
-            if name in ci.methods:
-                cands.append((ci.methods[name].node.lineno, "method", ci.methods[name]))
-            attrs = _class_attrs(ci)
-            if name in attrs:
-                if attrs[name] is None:
+            for dyn in ("__getattribute__",):
+                if any(b[1] == dyn for b in self.members(ci)):
+                    raise Unsupported("%s defines %s" % (q.split(".")[-1], dyn))
+            last = None
+            for b in self.members(ci):
+                if b[1] == name:
+                    last = b
+            if last is not None:
+                if last[2] == "unknown":
                     raise Unsupported("%s.%s is bound conditionally or by a statement the evaluator does not read" % (q.split(".")[-1], name))
-                cands.append((getattr(attrs[name], "lineno", 0), "attr", attrs[name]))
-            if cands:
-                cands.sort(key=lambda x: x[0])
-                return ci, cands[-1][1], cands[-1][2]
-        return None, None, None
+                return ci, last
+        return None, None
 
-    def get(self, name):
-        if name in self._busy:
-            raise Unsupported("%s is defined in terms of itself" % name)
-        ci, kind, what = self.lookup(name)
-        if ci is None:
-            raise Unsupported("%s is not defined by %s or its bases in the package" % (name, self.cls_qn.split(".")[-1]))
-        self.deps[name] = ci.qn
-        self._busy.add(name)
+    def _missing(self, qn, name):
+        mro = self.prog.mro(qn)
+        for q in mro:
+            ci = self.prog.classes.get(q)
+            if ci is None:
+                if q not in ("object",):
+                    return Unsupported("%s is not defined by %s or its bases in the package (base %s is outside)" % (name, qn.split(".")[-1], q))
+            elif any(b[1] == "__getattr__" for b in self.members(ci)):
+                return Unsupported("%s is not defined by %s; %s defines __getattr__" % (name, qn.split(".")[-1], q.split(".")[-1]))
+        return _Missing("%s is not defined by %s or its bases in the package" % (name, qn.split(".")[-1]))
+
+    def raw_member(self, ci, binding):
+        """the object the class body binds: value of the expression, or the function with its decorators applied"""
+        _line, name, kind, payload = binding
+        fr = _Frame(ChainMap({}), ci.module, ci, "classbody")
+        if kind == "attr":
+            return self.ev(payload, fr)
+        return self.def_value(payload, fr)
+
+    def def_value(self, fnode, fr):
+        v = self.make_function(fnode.args, fnode.body, fr, fnode.name, is_expr=False, node=fnode)
+        for d in reversed(fnode.decorator_list):
+            v = self.call(self.ev(d, fr), [v], {}, d)
+        return v
+
+    def _guarded(self, key, what, thunk):
+        if key in self._busy:
+            raise Unsupported("%s is defined in terms of itself" % what)
+        self._busy.add(key)
         try:
-            if kind == "attr":
-                e = what
-                if isinstance(e, ast.Call) and chain(e.func) in self._PROP and len(e.args) == 1 and isinstance(e.args[0], ast.Lambda):
-                    lam = e.args[0]
-                    ps = [x.arg for x in lam.args.posonlyargs + lam.args.args]
-                    if len(ps) != 1:
-                        raise Unsupported("property lambda of %s" % name)
-                    return self.ev(lam.body, {}, ps[0], ci)
-                return self.ev(e, {}, None, ci)
-            fi = what
-            decos = {ast.unparse(d) for d in fi.node.decorator_list}
-            if not decos & self._PROP:
-                raise Unsupported("%s.%s is a method, not a property" % (ci.qn.split(".")[-1], name))
-            a = fi.node.args
-            ps = [x.arg for x in a.posonlyargs + a.args]
-            if len(ps) != 1:
-                raise Unsupported("signature of property %s" % name)
-            return self.body(fi.node.body, {}, ps[0], ci, name)
+            return thunk()
         finally:
-            self._busy.discard(name)
+            self._busy.discard(key)
 
-    def body(self, stmts, env, selfname, ci, name):
-        for s in stmts:
-            if isinstance(s, ast.Expr):
-                continue  # docstring, warnings.warn(...)
-            if isinstance(s, (ast.Pass, ast.Assert, ast.Import, ast.ImportFrom)):
-                continue
-            if isinstance(s, ast.Assign) and len(s.targets) == 1 and isinstance(s.targets[0], ast.Name):
-                env[s.targets[0].id] = self.ev(s.value, env, selfname, ci)
-                continue
-            if isinstance(s, ast.AnnAssign) and isinstance(s.target, ast.Name) and s.value is not None:
-                env[s.target.id] = self.ev(s.value, env, selfname, ci)
-                continue
-            if isinstance(s, ast.Return) and s.value is not None:
-                return self.ev(s.value, env, selfname, ci)
-            raise Unsupported("property %s: statement `%s`" % (name, stmt_text(s, 40)))
-        raise Unsupported("property %s returns nothing" % name)
+    def inst_get(self, qn, name, after=None, inst=None):
+        """value of `obj.name` for an instance obj of class qn (`after`: lookup continues behind that class: super())"""
+        if name == "__class__":
+            return _ClsRef(qn)
+        ci, b = self.lookup(name, qn, after)
+        if ci is None:
+            raise self._missing(qn, name)
+        self.deps[name] = ci.qn
+        inst = inst or _Inst(qn)
 
-    def ev(self, e, env, selfname, ci):
+        def thunk():
+            raw = self.raw_member(ci, b)
+            if isinstance(raw, _Prop):
+                if raw.fget is None:
+                    raise Unsupported("property %s has no getter" % name)
+                return self.call(raw.fget, [inst], {}, None)
+            if isinstance(raw, _Static):
+                return raw.f
+            if isinstance(raw, _ClassM):
+                return self.bound(raw.f, _ClsRef(qn))
+            if isinstance(raw, _Callable) and raw.is_function:
+                return self.bound(raw, inst)
+            return raw
+
+        return self._guarded(("inst", qn, name, after), name, thunk)
+
+    def cls_get(self, qn, name, after=None):
+        """value of `C.name` for the class object C = qn"""
+        if name == "__name__":
+            return qn.split(".")[-1]
+        ci, b = self.lookup(name, qn, after)
+        if ci is None:
+            raise self._missing(qn, name)
+        self.deps[name] = ci.qn
+
+        def thunk():
+            raw = self.raw_member(ci, b)
+            if isinstance(raw, _Prop):
+                raise Unsupported("%s.%s read from the class is a property object" % (qn.split(".")[-1], name))
+            if isinstance(raw, _Static):
+                return raw.f
+            if isinstance(raw, _ClassM):
+                return self.bound(raw.f, _ClsRef(qn))
+            return raw
+
+        return self._guarded(("cls", qn, name, after), name, thunk)
+
+    def bound(self, f, obj):
+        return _Callable(lambda a, k: self.call(f, [obj] + list(a), k, None), False, "bound %s" % getattr(f, "descr", "callable"))
+
+    def getattr_value(self, base, attr, node=None):
+        if isinstance(base, _Inst):
+            return self.inst_get(base.qn, attr, inst=base)
+        if isinstance(base, _ClsRef):
+            return self.cls_get(base.qn, attr)
+        if isinstance(base, _Super):
+            if isinstance(base.obj, _Inst):
+                return self.inst_get(base.obj.qn, attr, after=base.after, inst=base.obj)
+            return self.cls_get(base.obj.qn, attr, after=base.after)
+        if isinstance(base, _ModRef):
+            return self.global_name(base.module, attr)
+        if isinstance(base, _Ext):
+            return self.ext_value(base.name + "." + attr)
+        if isinstance(base, dict) and attr in ("get", "items", "keys", "values"):
+            if attr == "get":
+                return _Callable(lambda a, k: self._dict_get(base, a, k), False, "dict.get")
+            if attr == "items":
+                return _Callable(lambda a, k: tuple((x, y) for x, y in base.items()), False, "dict.items")
+            if attr == "keys":
+                return _Callable(lambda a, k: tuple(base.keys()), False, "dict.keys")
+            return _Callable(lambda a, k: tuple(base.values()), False, "dict.values")
+        if isinstance(base, self.F) and not isinstance(base, bool) and attr in ("real", "numerator", "denominator", "imag"):
+            if attr == "real":
+                return base
+            if attr == "imag":
+                return self.F(0)
+            if base.denominator == 1 and attr == "numerator":
+                return base
+            if base.denominator == 1 and attr == "denominator":
+                return self.F(1)
+        raise Unsupported("attribute %s of %s" % (attr, self.show(base)))
+
+    def _dict_get(self, d, a, k):
+        if k or not 1 <= len(a) <= 2:
+            raise Unsupported("dict.get arguments")
+        key = self.hashable(a[0])
+        return d[key] if key in d else (a[1] if len(a) == 2 else None)
+
+    # -- names --------------------------------------------------------------------------------------------------
+
+    def name(self, ident, fr, node):
+        if ident in fr.env:
+            v = fr.env[ident]
+            if isinstance(v, _Opaque):
+                raise Unsupported(v.reason)
+            return v
+        if fr.kind == "classbody" and fr.defcls is not None:
+            ci = fr.defcls
+            line = getattr(node, "lineno", None)
+            last = None
+            for b in self.members(ci):
+                if b[1] == ident and (line is None or b[0] < line):
+                    last = b
+            if last is not None:
+                if last[2] == "unknown":
+                    raise Unsupported("%s.%s is bound conditionally or by a statement the evaluator does not read" % (ci.qn.split(".")[-1], ident))
+                self.deps[ident] = ci.qn
+                return self._guarded(("body", ci.qn, ident, last[0]), ident, lambda: self.raw_member(ci, last))
+        if fr.defcls is not None and ".<locals>." in fr.defcls.qn:
+            # a class defined inside a function sees the locals of that function, which the evaluator does not have
+            outer = self.prog.funcs.get(fr.defcls.qn.rsplit(".<locals>.", 1)[0])
+            if outer is None or ident in _local_names(outer.node):
+                raise Unsupported("name %s of the function that defines %s" % (ident, fr.defcls.qn.split(".")[-1]))
+        return self.global_name(fr.module, ident)
+
+    def global_name(self, mod, ident):
+        prog = self.prog
+        q = mod.name + "." + ident
+        if q in prog.classes:
+            return _ClsRef(q)
+        if q in prog.funcs and prog.funcs[q].cls is None and prog.funcs[q].parent is None:
+            if (q + "#2") in prog.funcs:
+                raise Unsupported("function %s is defined more than once" % ident)
+            fi = prog.funcs[q]
+            if not isinstance(fi.node, ast.FunctionDef):
+                raise Unsupported("%s is a coroutine function" % ident)
+            fr = _Frame(ChainMap({}), mod, None, "module")
+            return self._guarded(("glob", mod.name, ident), ident, lambda: self.def_value(fi.node, fr))
+        v = self.scope.module_value(mod, ident)
+        if v is not None:
+            fr = _Frame(ChainMap({}), mod, None, "module")
+            return self._guarded(("glob", mod.name, ident), ident, lambda: self.ev(v, fr))
+        if ident in mod.imports:
+            return self.imported(mod.imports[ident])
+        if ident in _BUILTINS:
+            return _Ext(ident)
+        raise Unsupported("name %s" % ident)
+
+    def imported(self, target, depth=0):
+        prog = self.prog
+        if depth > 6:
+            raise Unsupported("import chain of %s" % target)
+        tgt = prog.canonical(target)
+        if tgt in prog.classes:
+            return _ClsRef(tgt)
+        if tgt in prog.modules:
+            return _ModRef(prog.modules[tgt])
+        mname, _, attr = tgt.rpartition(".")
+        if mname in prog.modules:
+            return self.global_name(prog.modules[mname], attr)
+        if tgt.split(".")[0] in self._pkg_tops:
+            raise Unsupported("imported name %s" % tgt)
+        return self.ext_value(tgt)
+
+    def ext_value(self, name):
+        import math
+
+        if name in ("math.pi", "math.e", "math.tau"):
+            return self.F(getattr(math, name.split(".")[1]))
+        return _Ext(name)
+
+    # -- values -------------------------------------------------------------------------------------------------
+
+    def show(self, v):
+        if isinstance(v, self.F):
+            return str(v)
+        if isinstance(v, (_Inst, _ClsRef)):
+            return "%s %s" % ("an instance of" if isinstance(v, _Inst) else "class", v.qn.split(".")[-1])
+        if isinstance(v, _Ext):
+            return v.name
+        if isinstance(v, _Callable):
+            return v.descr
+        if isinstance(v, _Opaque):
+            return "<%s>" % v.reason
+        return type(v).__name__.lstrip("_") if not isinstance(v, (str, bool, tuple, type(None))) else repr(v)[:40]
+
+    def num(self, v, what="operand"):
+        if isinstance(v, bool):
+            return self.F(int(v))
+        if isinstance(v, self.F):
+            return v
+        if isinstance(v, _Opaque):
+            raise Unsupported(v.reason)
+        raise Unsupported("%s %s is not a number" % (what, self.show(v)))
+
+    def intv(self, v, what="operand"):
+        v = self.num(v, what)
+        if v.denominator != 1:
+            raise Unsupported("%s %s is not an integer" % (what, v))
+        return int(v)
+
+    def hashable(self, v):
+        if isinstance(v, (self.F, str, bool, type(None), bytes, _ClsRef)):
+            return v
+        if isinstance(v, tuple):
+            return tuple(self.hashable(x) for x in v)
+        raise Unsupported("%s as a key" % self.show(v))
+
+    def truthy(self, v):
+        if isinstance(v, _Opaque):
+            raise Unsupported(v.reason)
+        if isinstance(v, (bool, self.F)):
+            return v != 0
+        if v is None:
+            return False
+        if isinstance(v, (str, bytes, tuple, dict)):
+            return len(v) > 0
+        if isinstance(v, _Inst):
+            for special in ("__bool__", "__len__"):
+                if self.lookup(special, v.qn)[0] is not None:
+                    raise Unsupported("truth value of an object with %s" % special)
+            return True
+        if isinstance(v, (_Callable, _ClsRef, _Ext, _ModRef, _Prop, _Static, _ClassM)):
+            return True
+        raise Unsupported("truth value of %s" % self.show(v))
+
+    def items(self, v, what="iteration"):
+        if isinstance(v, _Opaque):
+            raise Unsupported(v.reason)
+        if isinstance(v, tuple):
+            return list(v)
+        if isinstance(v, dict):
+            return list(v.keys())
+        raise Unsupported("%s over %s" % (what, self.show(v)))
+
+    def power(self, a, b):
         F = self.F
-        if isinstance(e, ast.Constant):
-            if isinstance(e.value, bool) or not isinstance(e.value, (int, float)):
-                raise Unsupported("non-numeric constant %r" % (e.value,))
-            return F(e.value)
-        if isinstance(e, ast.Name):
-            if e.id in env:
-                return env[e.id]
-            if selfname is None and not isinstance(ci, _ModCi):
-                # class body: an earlier class attribute, else a module-level constant
-                c2, kind, what = self.lookup(e.id)
-                if c2 is not None and kind == "attr" and what is not e:
-                    return self.get(e.id)
-            v = self.scope.module_value(ci.module, e.id)
-            m2 = ci.module
-            if v is None and e.id in ci.module.imports:
-                tgt = self.prog.canonical(ci.module.imports[e.id])
-                mname, _, attr = tgt.rpartition(".")
-                if mname in self.prog.modules:
-                    m2 = self.prog.modules[mname]
-                    v = self.scope.module_value(m2, attr)
-            if v is None:
-                raise Unsupported("name %s" % e.id)
-            return self.ev(v, {}, None, _ModCi(m2))
-        if isinstance(e, ast.Attribute) and isinstance(e.value, ast.Name) and selfname is not None and e.value.id == selfname:
-            return self.get(e.attr)
-        if isinstance(e, ast.Attribute):
-            c = chain(e)
-            if c is not None:
-                parts = c.split(".")
-                r = self.scope.resolve(ci.module, ".".join(parts[:-1]))
-                if r is not None and r[0] == "cls":
-                    return ClassEval(self.prog, r[1]).get(parts[-1])
-            raise Unsupported("attribute %s" % ast.unparse(e))
-        if isinstance(e, ast.UnaryOp) and isinstance(e.op, (ast.USub, ast.UAdd)):
-            v = self.ev(e.operand, env, selfname, ci)
-            return -v if isinstance(e.op, ast.USub) else v
-        if isinstance(e, ast.BinOp):
-            a, b = self.ev(e.left, env, selfname, ci), self.ev(e.right, env, selfname, ci)
-            if isinstance(e.op, ast.Add):
-                return a + b
-            if isinstance(e.op, ast.Sub):
-                return a - b
-            if isinstance(e.op, ast.Mult):
-                return a * b
-            if isinstance(e.op, ast.Div):
-                if b == 0:
-                    raise Unsupported("division by zero")
+        a, b = self.num(a), self.num(b)
+        if b.denominator == 1:
+            n = int(b)
+            size = max(abs(a.numerator).bit_length(), a.denominator.bit_length(), 1)
+            if abs(n) * size > 1 << 16:
+                raise Unsupported("power %s ** %s is too large" % (a, b))
+            if a == 0 and n < 0:
+                raise Unsupported("division by zero")
+            return a ** n
+        # rational exponent p/q: exact only when a is a perfect q-th power
+        q, p = b.denominator, b.numerator
+        if a < 0 or q > 16:
+            raise Unsupported("power %s ** %s" % (a, b))
+        rn, rd = self._iroot(a.numerator, q), self._iroot(a.denominator, q)
+        if rn is None or rd is None:
+            raise Unsupported("%s ** %s is not rational" % (a, b))
+        return self.power(F(rn, rd), F(p))
+
+    @staticmethod
+    def _iroot(n, q):
+        if n < 0:
+            return None
+        lo, hi = 0, 1
+        while hi ** q < n:
+            hi *= 2
+        while lo < hi:
+            mid = (lo + hi) // 2
+            if mid ** q < n:
+                lo = mid + 1
+            else:
+                hi = mid
+        return lo if lo ** q == n else None
+
+    def binop(self, op, a, b):
+        F = self.F
+        if isinstance(op, type):
+            op = op()
+        if isinstance(op, ast.Add) and isinstance(a, tuple) and isinstance(b, tuple):
+            return a + b
+        if isinstance(op, ast.Mult) and (isinstance(a, tuple) or isinstance(b, tuple)):
+            t, n = (a, b) if isinstance(a, tuple) else (b, a)
+            n = self.intv(n)
+            if len(t) * max(n, 0) > self.MAX_ITEMS:
+                raise Unsupported("sequence too long")
+            return t * n
+        a, b = self.num(a), self.num(b)
+        if isinstance(op, ast.Add):
+            return a + b
+        if isinstance(op, ast.Sub):
+            return a - b
+        if isinstance(op, ast.Mult):
+            return a * b
+        if isinstance(op, (ast.Div, ast.FloorDiv, ast.Mod)):
+            if b == 0:
+                raise Unsupported("division by zero")
+            if isinstance(op, ast.Div):
                 return a / b
-            if isinstance(e.op, ast.Pow) and b.denominator == 1 and abs(b) <= 64:
-                if a == 0 and b < 0:
-                    raise Unsupported("division by zero")
-                return a ** int(b)
-            if isinstance(e.op, ast.LShift) and a.denominator == 1 and b.denominator == 1 and 0 <= b <= 64:
-                return F(int(a) << int(b))
-            raise Unsupported("operator %s" % type(e.op).__name__)
-        if isinstance(e, ast.Call) and chain(e.func) in ("float", "int") and len(e.args) == 1 and not e.keywords:
-            v = self.ev(e.args[0], env, selfname, ci)
-            return F(int(v)) if chain(e.func) == "int" else v
-        if isinstance(e, ast.Call) and chain(e.func) in ("max", "min") and len(e.args) >= 2 and not e.keywords:
-            vs = [self.ev(x, env, selfname, ci) for x in e.args]
-            return max(vs) if chain(e.func) == "max" else min(vs)
+            if isinstance(op, ast.FloorDiv):
+                return F(a // b)
+            return F(a % b)
+        if isinstance(op, ast.Pow):
+            return self.power(a, b)
+        if isinstance(op, (ast.LShift, ast.RShift, ast.BitAnd, ast.BitOr, ast.BitXor)):
+            x, y = self.intv(a), self.intv(b)
+            if isinstance(op, ast.LShift):
+                if not 0 <= y <= 4096:
+                    raise Unsupported("shift by %s" % y)
+                return F(x << y)
+            if isinstance(op, ast.RShift):
+                if y < 0:
+                    raise Unsupported("shift by %s" % y)
+                return F(x >> y)
+            if isinstance(op, ast.BitAnd):
+                return F(x & y)
+            if isinstance(op, ast.BitOr):
+                return F(x | y)
+            return F(x ^ y)
+        raise Unsupported("operator %s" % type(op).__name__)
+
+    def compare(self, a, op, b):
+        for x in (a, b):
+            if isinstance(x, _Opaque):
+                raise Unsupported(x.reason)
+        if isinstance(op, (ast.Is, ast.IsNot)):
+            if a is None or b is None or isinstance(a, bool) or isinstance(b, bool):
+                r = a is b
+            elif isinstance(a, (_Inst, _ClsRef)) and isinstance(b, (_Inst, _ClsRef)):
+                r = a is b or (isinstance(a, _ClsRef) and a == b)
+            else:
+                raise Unsupported("identity of %s and %s" % (self.show(a), self.show(b)))
+            return r if isinstance(op, ast.Is) else not r
+        if isinstance(op, (ast.In, ast.NotIn)):
+            if isinstance(b, dict):
+                r = self.hashable(a) in b
+            else:
+                r = any(self.compare(a, ast.Eq(), x) for x in self.items(b, "membership"))
+            return r if isinstance(op, ast.In) else not r
+        if isinstance(op, (ast.Eq, ast.NotEq)):
+            if isinstance(a, (bool, self.F)) and isinstance(b, (bool, self.F)):
+                r = self.num(a) == self.num(b)
+            elif isinstance(a, (_Callable, _Ext, _ModRef, _Prop, _Static, _ClassM, _Super)) or isinstance(b, (_Callable, _Ext, _ModRef, _Prop, _Static, _ClassM, _Super)):
+                raise Unsupported("comparison of %s and %s" % (self.show(a), self.show(b)))
+            elif isinstance(a, _Inst) or isinstance(b, _Inst):
+                for x in (a, b):
+                    if isinstance(x, _Inst) and self.lookup("__eq__", x.qn)[0] is not None:
+                        raise Unsupported("comparison of an object with __eq__")
+                r = a is b
+            elif isinstance(a, tuple) and isinstance(b, tuple):
+                r = len(a) == len(b) and all(self.compare(x, ast.Eq(), y) for x, y in zip(a, b))
+            elif isinstance(a, dict) or isinstance(b, dict):
+                raise Unsupported("comparison of dicts")
+            else:
+                r = type(a) is type(b) and a == b
+            return r if isinstance(op, ast.Eq) else not r
+        if isinstance(a, tuple) and isinstance(b, tuple):
+            raise Unsupported("ordering of sequences")
+        if isinstance(a, str) and isinstance(b, str):
+            x, y = a, b
+        else:
+            x, y = self.num(a, "compared value"), self.num(b, "compared value")
+        if isinstance(op, ast.Lt):
+            return x < y
+        if isinstance(op, ast.LtE):
+            return x <= y
+        if isinstance(op, ast.Gt):
+            return x > y
+        if isinstance(op, ast.GtE):
+            return x >= y
+        raise Unsupported("comparison %s" % type(op).__name__)
+
+    # -- expressions --------------------------------------------------------------------------------------------
+
+    def tick(self):
+        self._steps += 1
+        if self._steps > self.MAX_STEPS:
+            raise Unsupported("the evaluation does not finish within the step budget")
+
+    def lazy(self, e, fr):
+        try:
+            return self.ev(e, fr)
+        except Unsupported as ex:
+            return _Opaque(str(ex))
+
+    def ev(self, e, fr):
+        F = self.F
+        self.tick()
+        if isinstance(e, ast.Constant):
+            v = e.value
+            if isinstance(v, bool) or v is None or isinstance(v, (str, bytes)):
+                return v
+            if isinstance(v, (int, float)):
+                if isinstance(v, float) and (v != v or v in (float("inf"), float("-inf"))):
+                    raise Unsupported("non-finite constant")
+                return F(v)
+            raise Unsupported("constant %r" % (v,))
+        if isinstance(e, ast.Name):
+            return self.name(e.id, fr, e)
+        if isinstance(e, ast.Attribute):
+            return self.getattr_value(self.ev(e.value, fr), e.attr, e)
+        if isinstance(e, ast.UnaryOp):
+            if isinstance(e.op, ast.Not):
+                return not self.truthy(self.ev(e.operand, fr))
+            v = self.ev(e.operand, fr)
+            if isinstance(e.op, ast.USub):
+                return -self.num(v)
+            if isinstance(e.op, ast.UAdd):
+                return self.num(v)
+            return F(~self.intv(v))
+        if isinstance(e, ast.BinOp):
+            a = self.ev(e.left, fr)
+            b = self.ev(e.right, fr)
+            return self.binop(e.op, a, b)
+        if isinstance(e, ast.BoolOp):
+            v = None
+            for x in e.values:
+                v = self.ev(x, fr)
+                t = self.truthy(v)
+                if isinstance(e.op, ast.And) and not t:
+                    return v
+                if isinstance(e.op, ast.Or) and t:
+                    return v
+            return v
+        if isinstance(e, ast.Compare):
+            left = self.ev(e.left, fr)
+            for op, r in zip(e.ops, e.comparators):
+                right = self.ev(r, fr)
+                if not self.compare(left, op, right):
+                    return False
+                left = right
+            return True
+        if isinstance(e, ast.IfExp):
+            return self.ev(e.body if self.truthy(self.ev(e.test, fr)) else e.orelse, fr)
+        if isinstance(e, (ast.Tuple, ast.List)):
+            out = []
+            for x in e.elts:
+                if isinstance(x, ast.Starred):
+                    out.extend(self.items(self.ev(x.value, fr), "unpacking"))
+                else:
+                    out.append(self.ev(x, fr))
+            return tuple(out)
+        if isinstance(e, ast.Dict):
+            d = {}
+            for k, v in zip(e.keys, e.values):
+                if k is None:
+                    sub = self.ev(v, fr)
+                    if not isinstance(sub, dict):
+                        raise Unsupported("** of %s" % self.show(sub))
+                    d.update(sub)
+                else:
+                    d[self.hashable(self.ev(k, fr))] = self.ev(v, fr)
+            return d
+        if isinstance(e, ast.Subscript):
+            base = self.ev(e.value, fr)
+            if isinstance(base, dict):
+                k = self.hashable(self.ev(e.slice, fr))
+                if k not in base:
+                    raise Unsupported("key %s is not in the table" % self.show(k))
+                return base[k]
+            if isinstance(base, tuple):
+                if isinstance(e.slice, ast.Slice):
+                    lo, hi, st = [None if x is None else self.intv(self.ev(x, fr), "slice bound") for x in (e.slice.lower, e.slice.upper, e.slice.step)]
+                    if st == 0:
+                        raise Unsupported("slice step 0")
+                    return base[lo:hi:st]
+                i = self.intv(self.ev(e.slice, fr), "index")
+                if not -len(base) <= i < len(base):
+                    raise Unsupported("index %d out of range" % i)
+                return base[i]
+            raise Unsupported("subscript of %s" % self.show(base))
+        if isinstance(e, ast.Lambda):
+            return self.make_function(e.args, e.body, fr, "<lambda>", is_expr=True, node=e)
+        if isinstance(e, (ast.ListComp, ast.GeneratorExp, ast.SetComp)):
+            out = []
+            self.comprehend(e.generators, fr.child(), lambda f2: out.append(self.ev(e.elt, f2)))
+            if isinstance(e, ast.SetComp):
+                seen, uniq = set(), []
+                for x in out:
+                    h = self.hashable(x)
+                    if h not in seen:
+                        seen.add(h)
+                        uniq.append(x)
+                out = uniq
+            return tuple(out)
+        if isinstance(e, ast.DictComp):
+            d = {}
+
+            def put(f2):
+                d[self.hashable(self.ev(e.key, f2))] = self.ev(e.value, f2)
+
+            self.comprehend(e.generators, fr.child(), put)
+            return d
+        if isinstance(e, ast.NamedExpr) and isinstance(e.target, ast.Name):
+            v = self.ev(e.value, fr)
+            fr.env[e.target.id] = v
+            return v
+        if isinstance(e, ast.Call):
+            return self.ev_call(e, fr)
         raise Unsupported("expression `%s`" % ast.unparse(e)[:50])
 
+    def comprehend(self, gens, fr, emit, i=0):
+        if i == len(gens):
+            emit(fr)
+            return
+        g = gens[i]
+        if g.is_async:
+            raise Unsupported("asynchronous comprehension")
+        for x in self.items(self.ev(g.iter, fr)):
+            self.tick()
+            self.assign(g.target, x, fr)
+            if all(self.truthy(self.ev(c, fr)) for c in g.ifs):
+                self.comprehend(gens, fr, emit, i + 1)
 
-def _class_attrs(ci):
-    """{name: value expr} of the class-level bindings read from the class body itself (the program index leaves
-    ClassInfo.attrs empty for classes defined inside functions); a name bound under a class-level if / try / with / for,
-    by `del`, or by unpacking a non-literal is mapped to None."""
-    out = {}
-
-    def bind(t, v):
-        if isinstance(t, ast.Name):
-            out[t.id] = v
-        elif isinstance(t, (ast.Tuple, ast.List)):
-            if v is not None and isinstance(v, (ast.Tuple, ast.List)) and len(v.elts) == len(t.elts) and not any(isinstance(x, ast.Starred) for x in list(v.elts) + list(t.elts)):
-                for x, y in zip(t.elts, v.elts):
-                    bind(x, y)
+    def ev_call(self, e, fr):
+        f = self.ev(e.func, fr)
+        if isinstance(f, _Ext) and f.name == "super" and not e.args and not e.keywords:
+            if fr.first is None or fr.defcls is None or not isinstance(fr.first, (_Inst, _ClsRef)):
+                raise Unsupported("super() outside a method")
+            return _Super(fr.first, fr.defcls.qn)
+        args = []
+        for a in e.args:
+            if isinstance(a, ast.Starred):
+                args.extend(self.items(self.ev(a.value, fr), "argument unpacking"))
             else:
+                args.append(self.lazy(a, fr))
+        kwargs = {}
+        for k in e.keywords:
+            if k.arg is None:
+                d = self.ev(k.value, fr)
+                if not isinstance(d, dict) or not all(isinstance(x, str) for x in d):
+                    raise Unsupported("** of %s" % self.show(d))
+                kwargs.update(d)
+            else:
+                kwargs[k.arg] = self.lazy(k.value, fr)
+        return self.call(f, args, kwargs, e)
+
+    def call(self, f, args, kwargs, node):
+        self._depth += 1
+        try:
+            if self._depth > self.MAX_DEPTH:
+                raise Unsupported("calls nest too deeply")
+            if isinstance(f, _Opaque):
+                raise Unsupported(f.reason)
+            if isinstance(f, _Callable):
+                return f.fn(list(args), dict(kwargs))
+            if isinstance(f, _Ext):
+                return self.call_ext(f.name, list(args), dict(kwargs))
+            if isinstance(f, _ClsRef):
+                if args or kwargs:
+                    raise Unsupported("construction of %s with arguments" % f.qn.split(".")[-1])
+                for special in ("__init__", "__new__", "__init_subclass__"):
+                    if self.lookup(special, f.qn)[0] is not None:
+                        raise Unsupported("%s defines %s" % (f.qn.split(".")[-1], special))
+                if any(q not in self.prog.classes and q != "object" for q in self.prog.mro(f.qn)):
+                    raise Unsupported("construction of %s, which has a base outside the package" % f.qn.split(".")[-1])
+                return _Inst(f.qn)
+            raise Unsupported("call of %s" % self.show(f))
+        finally:
+            self._depth -= 1
+
+    # -- functions ----------------------------------------------------------------------------------------------
+
+    def make_function(self, a, body, fr_def, name, is_expr, node):
+        """a function object: defaults are evaluated now (definition time), the body when it is called"""
+        pos = [x.arg for x in a.posonlyargs + a.args]
+        npos_only = len(a.posonlyargs)
+        defaults = {}
+        for p, d in zip(pos[len(pos) - len(a.defaults):], a.defaults):
+            defaults[p] = self.lazy(d, fr_def)
+        for p, d in zip(a.kwonlyargs, a.kw_defaults):
+            if d is not None:
+                defaults[p.arg] = self.lazy(d, fr_def)
+        kwonly = [x.arg for x in a.kwonlyargs]
+        in_class = fr_def.kind == "classbody"
+        if not is_expr:
+            if isinstance(node, ast.AsyncFunctionDef):
+                raise Unsupported("%s is a coroutine function" % name)
+            for x in walk_no_nested(node):
+                if isinstance(x, (ast.Yield, ast.YieldFrom, ast.Await)):
+                    raise Unsupported("%s is a generator" % name)
+                if isinstance(x, (ast.Global, ast.Nonlocal)):
+                    raise Unsupported("%s re-binds names of an outer scope" % name)
+
+        def run(args, kwargs):
+            local = {}
+            args = list(args)
+            if len(args) > len(pos) and a.vararg is None:
+                raise Unsupported("%s() takes %d positional arguments, %d given" % (name, len(pos), len(args)))
+            for p, v in zip(pos, args):
+                local[p] = v
+            if a.vararg is not None:
+                local[a.vararg.arg] = tuple(args[len(pos):])
+            extra = {}
+            for k, v in kwargs.items():
+                if k in local or (k in pos[:npos_only]):
+                    raise Unsupported("%s() got multiple values / a positional-only keyword for %s" % (name, k))
+                if k in pos or k in kwonly:
+                    local[k] = v
+                elif a.kwarg is not None:
+                    extra[k] = v
+                else:
+                    raise Unsupported("%s() got an unexpected keyword argument %s" % (name, k))
+            if a.kwarg is not None:
+                local[a.kwarg.arg] = extra
+            for p in pos + kwonly:
+                if p not in local:
+                    if p not in defaults:
+                        raise Unsupported("%s() is called without its argument %s" % (name, p))
+                    local[p] = defaults[p]
+            env = fr_def.env.new_child(local) if fr_def.kind == "func" else ChainMap(local)
+            first = fr_def.first
+            if in_class:
+                first = args[0] if args and pos else None
+            fr = _Frame(env, fr_def.module, fr_def.defcls, "func", first)
+            if is_expr:
+                return self.ev(body, fr)
+            try:
+                self.block(body, fr)
+            except _Ret as r:
+                return r.value
+            except (_Brk, _Cont):
+                raise Unsupported("break / continue outside a loop in %s" % name)
+            return None
+
+        return _Callable(run, True, "function %s" % name)
+
+    def assign(self, t, v, fr):
+        if isinstance(t, ast.Name):
+            fr.env[t.id] = v
+            return
+        if isinstance(t, (ast.Tuple, ast.List)):
+            if isinstance(v, _Opaque):
                 for x in ast.walk(t):
                     if isinstance(x, ast.Name):
-                        out[x.id] = None
+                        fr.env[x.id] = v
+                return
+            vals = self.items(v, "unpacking")
+            if any(isinstance(x, ast.Starred) for x in t.elts) or len(vals) != len(t.elts):
+                raise Unsupported("unpacking into `%s`" % ast.unparse(t)[:40])
+            for x, y in zip(t.elts, vals):
+                self.assign(x, y, fr)
+            return
+        raise Unsupported("assignment to `%s`" % ast.unparse(t)[:40])
 
-    for st in ci.node.body:
-        if isinstance(st, ast.Assign):
-            for t in st.targets:
-                bind(t, st.value)
-        elif isinstance(st, ast.AnnAssign):
-            if st.value is not None:
-                bind(st.target, st.value)
-        elif isinstance(st, (ast.FunctionDef, ast.AsyncFunctionDef, ast.ClassDef, ast.Expr, ast.Pass, ast.Import, ast.ImportFrom)):
-            continue
-        else:
-            for x in ast.walk(st):
-                if isinstance(x, ast.Name) and isinstance(x.ctx, (ast.Store, ast.Del)):
-                    out[x.id] = None
-    return out
+    def block(self, stmts, fr):
+        for s in stmts:
+            self.stmt(s, fr)
 
+    def stmt(self, s, fr):
+        self.tick()
+        if isinstance(s, ast.Expr):
+            return  # docstring, warnings.warn(...), logging: no influence on the value (see the comment above)
+        if isinstance(s, (ast.Pass, ast.Assert, ast.Import, ast.ImportFrom)):
+            return
+        if isinstance(s, ast.Assign):
+            v = self.lazy(s.value, fr)
+            for t in s.targets:
+                self.assign(t, v, fr)
+            return
+        if isinstance(s, ast.AnnAssign):
+            if s.value is not None:
+                self.assign(s.target, self.lazy(s.value, fr), fr)
+            return
+        if isinstance(s, ast.AugAssign):
+            if not isinstance(s.target, ast.Name):
+                raise Unsupported("statement `%s`" % stmt_text(s, 40))
+            try:
+                v = self.binop(s.op, self.name(s.target.id, fr, s.target), self.ev(s.value, fr))
+            except Unsupported as ex:
+                v = _Opaque(str(ex))
+            fr.env[s.target.id] = v
+            return
+        if isinstance(s, ast.Return):
+            raise _Ret(self.ev(s.value, fr) if s.value is not None else None)
+        if isinstance(s, ast.If):
+            self.block(s.body if self.truthy(self.ev(s.test, fr)) else s.orelse, fr)
+            return
+        if isinstance(s, ast.For):
+            broke = False
+            for x in self.items(self.ev(s.iter, fr)):
+                self.tick()
+                self.assign(s.target, x, fr)
+                try:
+                    self.block(s.body, fr)
+                except _Brk:
+                    broke = True
+                    break
+                except _Cont:
+                    continue
+            if not broke:
+                self.block(s.orelse, fr)
+            return
+        if isinstance(s, ast.While):
+            broke = False
+            while self.truthy(self.ev(s.test, fr)):
+                self.tick()
+                try:
+                    self.block(s.body, fr)
+                except _Brk:
+                    broke = True
+                    break
+                except _Cont:
+                    continue
+            if not broke:
+                self.block(s.orelse, fr)
+            return
+        if isinstance(s, ast.Break):
+            raise _Brk()
+        if isinstance(s, ast.Continue):
+            raise _Cont()
+        if isinstance(s, ast.FunctionDef):
+            fr.env[s.name] = self.def_value(s, fr)
+            return
+        if isinstance(s, ast.With) and all(i.optional_vars is None for i in s.items):
+            # the context managers a value computation is wrapped in (warnings.catch_warnings(), a lock) do not
+            # change what the body computes
+            self.block(s.body, fr)
+            return
+        raise Unsupported("statement `%s`" % stmt_text(s, 40))
 
-class _ModCi:
-    def __init__(self, module):
-        self.module = module
-        self.qn = module.name
+    # -- builtins and the standard library ----------------------------------------------------------------------
+
+    def call_ext(self, name, a, k):
+        import math
+
+        F = self.F
+
+        def need(cond):
+            if not cond:
+                raise Unsupported("arguments of %s" % name)
+
+        def seq():
+            """the numbers of f(iterable) / f(a, b, ...)"""
+            need(not k and a)
+            xs = self.items(a[0]) if len(a) == 1 else a
+            return xs
+
+        if name in ("property", "functools.cached_property"):
+            fget = a[0] if a else k.get("fget", k.get("func"))
+            need(len(a) <= 4 and set(k) <= {"fget", "fset", "fdel", "doc", "func"})
+            if isinstance(fget, _Opaque):
+                raise Unsupported(fget.reason)
+            return _Prop(fget)
+        if name == "staticmethod":
+            need(len(a) == 1 and not k)
+            return _Static(a[0])
+        if name == "classmethod":
+            need(len(a) == 1 and not k)
+            return _ClassM(a[0])
+        if name in ("functools.cache", "functools.lru_cache"):
+            # memoisation does not change the value of a function of immutable class parameters
+            if len(a) == 1 and not k and isinstance(a[0], _Callable):
+                return a[0]
+            need(name == "functools.lru_cache" and len(a) <= 2 and set(k) <= {"maxsize", "typed"})
+            return _Callable(lambda a2, k2: a2[0] if len(a2) == 1 and not k2 else self._bad(name), False, name)
+        if name == "functools.partial":
+            need(a)
+            f0, a0, k0 = a[0], a[1:], k
+            return _Callable(lambda a2, k2: self.call(f0, a0 + list(a2), {**k0, **k2}, None), False, "partial of %s" % self.show(f0))
+        if name == "functools.reduce":
+            need(not k and 2 <= len(a) <= 3)
+            xs = self.items(a[1])
+            if len(a) == 3:
+                acc = a[2]
+            else:
+                need(xs)
+                acc, xs = xs[0], xs[1:]
+            for x in xs:
+                self.tick()
+                acc = self.call(a[0], [acc, x], {}, None)
+            return acc
+        if name.startswith("operator."):
+            op = name.split(".", 1)[1]
+            if op in _OPERATOR:
+                need(len(a) == 2 and not k)
+                return self.binop(_OPERATOR[op], a[0], a[1])
+            if op == "neg":
+                need(len(a) == 1 and not k)
+                return -self.num(a[0])
+            if op == "attrgetter":
+                need(len(a) == 1 and not k and isinstance(a[0], str))
+                path = a[0].split(".")
+
+                def getter(a2, k2):
+                    if len(a2) != 1 or k2:
+                        raise Unsupported("arguments of attrgetter")
+                    v = a2[0]
+                    for p in path:
+                        v = self.getattr_value(v, p)
+                    return v
+
+                return _Callable(getter, False, "attrgetter(%r)" % a[0])
+            if op == "itemgetter":
+                need(len(a) == 1 and not k)
+                key = a[0]
+
+                def item(a2, k2):
+                    if len(a2) != 1 or k2:
+                        raise Unsupported("arguments of itemgetter")
+                    if isinstance(a2[0], dict):
+                        h = self.hashable(key)
+                        if h not in a2[0]:
+                            raise Unsupported("key %s is not in the table" % self.show(key))
+                        return a2[0][h]
+                    xs = self.items(a2[0], "indexing")
+                    i = self.intv(key, "index")
+                    if not -len(xs) <= i < len(xs):
+                        raise Unsupported("index %d out of range" % i)
+                    return xs[i]
+
+                return _Callable(item, False, "itemgetter")
+        if name == "getattr":
+            need(not k and 2 <= len(a) <= 3 and isinstance(a[1], str))
+            try:
+                return self.getattr_value(a[0], a[1])
+            except _Missing:
+                if len(a) == 3:
+                    return a[2]
+                raise
+        if name == "hasattr":
+            need(not k and len(a) == 2 and isinstance(a[1], str))
+            try:
+                self.getattr_value(a[0], a[1])
+                return True
+            except _Missing:
+                return False
+        if name == "type":
+            need(not k and len(a) == 1)
+            if isinstance(a[0], _Inst):
+                return _ClsRef(a[0].qn)
+            raise Unsupported("type() of %s" % self.show(a[0]))
+        if name == "super":
+            need(not k and len(a) == 2 and isinstance(a[0], _ClsRef) and isinstance(a[1], (_Inst, _ClsRef)))
+            return _Super(a[1], a[0].qn)
+        if name == "float":
+            need(not k and len(a) <= 1)
+            if not a:
+                return F(0)
+            if isinstance(a[0], str):
+                try:
+                    v = float(a[0])
+                except ValueError:
+                    raise Unsupported("float(%r)" % a[0])
+                if v != v or v in (float("inf"), float("-inf")):
+                    raise Unsupported("non-finite number")
+                return F(v)
+            return self.num(a[0])
+        if name == "int":
+            need(not k and len(a) <= 1)
+            if not a:
+                return F(0)
+            if isinstance(a[0], str):
+                try:
+                    return F(int(a[0]))
+                except ValueError:
+                    raise Unsupported("int(%r)" % a[0])
+            return F(int(self.num(a[0])))
+        if name == "bool":
+            need(not k and len(a) <= 1)
+            return self.truthy(a[0]) if a else False
+        if name in ("abs", "math.fabs"):
+            need(not k and len(a) == 1)
+            return abs(self.num(a[0]))
+        if name == "round":
+            need(not k and 1 <= len(a) <= 2)
+            v = self.num(a[0])
+            if len(a) == 1 or a[1] is None:
+                return F(round(v))
+            n = self.intv(a[1])
+            if v.denominator == 1:
+                return F(round(int(v), n))
+            if F(float(v)) != v:
+                raise Unsupported("round() of a value that is not a float")
+            return F(round(float(v), n))
+        if name in ("pow", "math.pow"):
+            need(not k and len(a) == 2)
+            return self.power(a[0], a[1])
+        if name == "math.ldexp":
+            need(not k and len(a) == 2)
+            return self.num(a[0]) * self.power(F(2), F(self.intv(a[1])))
+        if name == "math.exp2":
+            need(not k and len(a) == 1)
+            return self.power(F(2), a[0])
+        if name in ("math.floor", "math.ceil", "math.trunc"):
+            need(not k and len(a) == 1)
+            return F(getattr(math, name.split(".")[1])(self.num(a[0])))
+        if name in ("math.sqrt", "math.isqrt", "math.cbrt"):
+            need(not k and len(a) == 1)
+            if name == "math.isqrt":
+                need(self.intv(a[0]) >= 0)
+                return F(math.isqrt(self.intv(a[0])))
+            return self.power(a[0], F(1, 2) if name == "math.sqrt" else F(1, 3))
+        if name == "math.log2":
+            need(not k and len(a) == 1)
+            v = self.num(a[0])
+            for x, sign in ((v, 1), (1 / v if v != 0 else v, -1)):
+                if x >= 1 and x.denominator == 1 and int(x) & (int(x) - 1) == 0:
+                    return F(sign * (int(x).bit_length() - 1))
+            raise Unsupported("log2(%s) is not rational" % v)
+        if name == "divmod":
+            need(not k and len(a) == 2)
+            return (self.binop(ast.FloorDiv(), a[0], a[1]), self.binop(ast.Mod(), a[0], a[1]))
+        if name in ("sum", "math.fsum", "math.prod"):
+            need(1 <= len(a) <= 2 and set(k) <= {"start"} and not (len(a) == 2 and k))
+            start = a[1] if len(a) == 2 else k.get("start")
+            need(start is None or name != "math.fsum")
+            if name == "math.prod":
+                acc = F(1) if start is None else start
+                for x in self.items(a[0]):
+                    acc = self.binop(ast.Mult(), acc, x)
+                return acc
+            acc = F(0) if start is None else start
+            for x in self.items(a[0]):
+                acc = self.binop(ast.Add(), acc, x)
+            return acc
+        if name in ("max", "min"):
+            xs = seq()
+            need(xs)
+            vals = [self.num(x, "argument of %s" % name) for x in xs]
+            return max(vals) if name == "max" else min(vals)
+        if name == "len":
+            need(not k and len(a) == 1 and isinstance(a[0], (tuple, dict, str, bytes)))
+            return F(len(a[0]))
+        if name == "range":
+            need(not k and 1 <= len(a) <= 3)
+            bounds = [self.intv(x, "argument of range") for x in a]
+            need(len(bounds) < 3 or bounds[2] != 0)
+            r = range(*bounds)
+            if len(r) > self.MAX_ITEMS:
+                raise Unsupported("range of %d elements" % len(r))
+            return tuple(F(i) for i in r)
+        if name in ("tuple", "list", "sorted", "reversed"):
+            need(len(a) <= 1 and not k)
+            xs = self.items(a[0]) if a else []
+            if name == "sorted":
+                xs = sorted(xs, key=lambda x: self.num(x, "sorted element"))
+            elif name == "reversed":
+                xs = xs[::-1]
+            return tuple(xs)
+        if name == "dict":
+            need(len(a) <= 1)
+            d = {}
+            if a:
+                if isinstance(a[0], dict):
+                    d.update(a[0])
+                else:
+                    for it in self.items(a[0]):
+                        kv = self.items(it, "dict item")
+                        need(len(kv) == 2)
+                        d[self.hashable(kv[0])] = kv[1]
+            d.update(k)
+            return d
+        if name == "enumerate":
+            need(1 <= len(a) <= 2 and set(k) <= {"start"} and not (len(a) == 2 and k))
+            start = self.intv(a[1] if len(a) == 2 else k.get("start", F(0)))
+            return tuple((F(start + i), x) for i, x in enumerate(self.items(a[0])))
+        if name == "zip":
+            need(not k)
+            return tuple(tuple(t) for t in zip(*[self.items(x) for x in a]))
+        if name == "map":
+            need(not k and len(a) >= 2)
+            return tuple(self.call(a[0], list(t), {}, None) for t in zip(*[self.items(x) for x in a[1:]]))
+        if name == "fractions.Fraction":
+            need(not k and 1 <= len(a) <= 2)
+            if len(a) == 1 and isinstance(a[0], str):
+                try:
+                    return F(a[0])
+                except (ValueError, ZeroDivisionError):
+                    raise Unsupported("Fraction(%r)" % a[0])
+            return self.binop(ast.Div(), a[0], a[1]) if len(a) == 2 else self.num(a[0])
+        raise Unsupported("call of %s" % name)
+
+    def _bad(self, name):
+        raise Unsupported("arguments of %s" % name)
